@@ -236,6 +236,20 @@ type c12Gen struct {
 	nilCont int // nil probability of a pointer whose base type is a slice/map (the encoder rejects those: known finding)
 	budget  int // remaining node budget
 	special bool
+	// share: percent of non-nil pointer positions that reuse a pointer generated earlier in the
+	// same value (same pointer type): shared, acyclic pointers. 0 = every pointer is fresh.
+	share int
+	// unregAny: percent of non-nil `any` positions that hold a value of an UNREGISTERED defined
+	// type over a basic kind (c12UnregAnyTypes): the serialiser must refuse the whole value.
+	unregAny int
+	pool     map[reflect.Type][]c12Pooled
+}
+
+// a pointer the generator has finished building (so reusing it cannot close a cycle) and the
+// number of nodes of its unfolding
+type c12Pooled struct {
+	p    reflect.Value
+	size int
 }
 
 var c12Strings = []string{"", "a", "hello world", "null", "\"quoted\"", "back\\slash", "line\nbreak\ttab", "<html>&amp;</html>",
@@ -402,9 +416,26 @@ func (g *c12Gen) gen(t reflect.Type, depth int) reflect.Value {
 		if g.r.Chance(pn) {
 			return v // nil
 		}
+		if g.share > 0 && g.r.Chance(g.share) {
+			if cands := g.pool[t]; len(cands) > 0 {
+				c := cands[g.r.Intn(len(cands))]
+				if c.size <= g.budget || c.size <= 4 {
+					g.budget -= c.size
+					v.Set(c.p)
+					return v
+				}
+			}
+		}
+		before := g.budget
 		p := reflect.New(t.Elem())
 		p.Elem().Set(g.gen(t.Elem(), depth+1))
 		v.Set(p)
+		if g.share > 0 {
+			if g.pool == nil {
+				g.pool = map[reflect.Type][]c12Pooled{}
+			}
+			g.pool[t] = append(g.pool[t], c12Pooled{p, before - g.budget + 1})
+		}
 	case reflect.Slice:
 		if g.r.Chance(15) {
 			return v // nil slice
@@ -421,6 +452,11 @@ func (g *c12Gen) gen(t reflect.Type, depth int) reflect.Value {
 		}
 		n := g.size()
 		m := reflect.MakeMap(t)
+		if kk := t.Key().Kind(); kk == reflect.Struct || kk == reflect.Ptr {
+			g.composite(m, t, n, depth)
+			v.Set(m)
+			return v
+		}
 		for i := 0; i < n; i++ {
 			k := g.gen(t.Key(), depth+1)
 			if k.Kind() == reflect.Float32 || k.Kind() == reflect.Float64 {
@@ -442,6 +478,10 @@ func (g *c12Gen) gen(t reflect.Type, depth int) reflect.Value {
 		if g.r.Chance(20) || depth > 6 || g.budget <= 0 {
 			return v // nil interface
 		}
+		if g.unregAny > 0 && g.r.Chance(g.unregAny) {
+			v.Set(g.gen(c12UnregAnyTypes[g.r.Intn(len(c12UnregAnyTypes))], depth+1))
+			return v
+		}
 		dt := c12AnyTypes[g.r.Intn(len(c12AnyTypes))]
 		v.Set(g.gen(dt, depth+1))
 	}
@@ -455,6 +495,25 @@ type c12Ctx struct {
 	kinds   map[string]string
 	structs map[string]any
 	unreg   map[string]bool // type names met that are not registered
+	addr    map[c12PtrID]int // identity of a pointer (address, pointee type) -> label sent to the model
+}
+
+type c12PtrID struct {
+	addr uintptr
+	elem reflect.Type
+}
+
+// label numbers the pointer identities of one value 1, 2, … in the order they are met
+func (c *c12Ctx) label(v reflect.Value) int {
+	if c.addr == nil {
+		c.addr = map[c12PtrID]int{}
+	}
+	id := c12PtrID{v.Pointer(), v.Type().Elem()}
+	if n, ok := c.addr[id]; ok {
+		return n
+	}
+	c.addr[id] = len(c.addr) + 1
+	return len(c.addr)
 }
 
 func c12NewCtx() *c12Ctx {
@@ -562,6 +621,8 @@ type c12Stats struct {
 	nodes, maxPtr, nilPtrs, nilInChain, ptrToContainer, nilPtrToContainer, ifaceVals, ifaceNil, maxDepth int
 	bigInt, negZero, unenc, escapes, mapEntries, sliceElems, structs, unregTypes, nestedContainer        int
 	badUTF8                                                                                              bool
+	sharedOcc                                                                                            int // pointer occurrences whose pointer was met before in the same value
+	structKeys, ptrKeys, unregNamed                                                                      int // map entries with a struct / pointer key; leaves of an unregistered defined basic type
 }
 
 // noteElem: the encoder has to name the base type of a container element / nil pointer target.
@@ -622,7 +683,12 @@ func (c *c12Ctx) val(v reflect.Value, st *c12Stats, depth, chain int) any {
 		if k := t.Elem().Kind(); k == reflect.Slice || k == reflect.Map {
 			st.ptrToContainer++
 		}
-		return map[string]any{"k": "ptr", "v": c.val(v.Elem(), st, depth+1, chain+1)}
+		seen := len(c.addr)
+		a := c.label(v)
+		if a <= seen && v.Type().Elem().Size() > 0 { // met before (zero-size pointees have no identity: &struct{}{})
+			st.sharedOcc++
+		}
+		return map[string]any{"k": "ptr", "a": a, "v": c.val(v.Elem(), st, depth+1, chain+1)}
 	case reflect.Slice:
 		st.noteElem(t.Elem())
 		vs := []any{}
@@ -642,6 +708,12 @@ func (c *c12Ctx) val(v reflect.Value, st *c12Stats, depth, chain int) any {
 		it := v.MapRange()
 		for it.Next() {
 			st.mapEntries++
+			switch t.Key().Kind() {
+			case reflect.Struct:
+				st.structKeys++
+			case reflect.Ptr:
+				st.ptrKeys++
+			}
 			kvs = append(kvs, kv{c12KeyPayload(it.Key()), c.val(it.Value(), st, depth+1, 0)})
 		}
 		sort.Slice(kvs, func(i, j int) bool { return kvs[i].k < kvs[j].k })
@@ -664,6 +736,9 @@ func (c *c12Ctx) val(v reflect.Value, st *c12Stats, depth, chain int) any {
 	}
 	p := c12Payload(v)
 	st.noteElem(t)
+	if t.PkgPath() != "" && !c12IsRegistered(t) {
+		st.unregNamed++
+	}
 	switch t.Kind() {
 	case reflect.Int, reflect.Int64:
 		if i := v.Int(); i > 1<<53 || i < -(1<<53) {
@@ -819,6 +894,9 @@ func c12DeepEq(a, b reflect.Value) (bool, string) {
 	case reflect.Map:
 		if a.Len() != b.Len() {
 			return false, fmt.Sprintf("%s size %d vs %d", a.Type(), a.Len(), b.Len())
+		}
+		if a.Type().Key().Kind() == reflect.Ptr {
+			return c12PtrKeyedEq(a, b)
 		}
 		it := a.MapRange()
 		for it.Next() {
